@@ -151,25 +151,34 @@ func c07Run(c *mon.Ctx, csAny any) {
 
 	switch cs.Kind {
 	case "encode":
-		v := mon.BigH(cs.In)
-		s := mon.Scal(v)
-		want := oracle.Bytes32(v)
+		var (
+			v *big.Int
+			s *secp256k1.Scalar
+		)
 
-		if cs.Move != nil {
-			s = mon.Scal(mon.BigH(cs.Move.From))
-			_, _ = s.Encode(), s.Hex()
+		if cs.Move == nil {
+			v = mon.BigH(cs.In)
+			s = mon.Scal(v)
+		} else {
+			var (
+				pan bool
+				pv  any
+			)
 
-			if pan, pv := mon.Call(func() { mon.ApplyScalarMove(s, *cs.Move) }); pan {
-				if mon.IsHarnessPanic(pv) {
-					panic(pv)
-				}
-
+			s, v, pan, pv = mon.MoveScalar(*cs.Move, func(s *secp256k1.Scalar) { _, _ = s.Encode(), s.Hex() })
+			if pan {
 				c.Fail(fmt.Sprintf("scalar mutator %s panicked: %v", cs.Move.Via, pv), "scalar-move-panic", nil)
 				return
 			}
 
 			c.Count("encode:moved")
+
+			if cs.Move.To == mon.Havoc {
+				c.Count("encode:moved-havoc")
+			}
 		}
+
+		want := oracle.Bytes32(v)
 
 		c.Eval(3)
 		c.Count("encode")
